@@ -149,8 +149,12 @@ def run(ctx):
     seglists = []
     for n in range(0, maxn + 1):
         seglists += list(itertools.product(SEGS, repeat=n))
+    from vlib import lits
+    extra_max = ['=%d' % w for v in lits.new('oslo_utils/strutils.py')['ints'] for w in (v, v + 1, v + 2)
+                 if 4 < w <= 4096][:9]
     E.run(rep, 'split_path', [seglists, [True, False], [False, True], [1, 2, 3, 4],
-                              ['none', 'zero', -1, 0, 1, 2, '=9', '=10', '=17', '=64'], [False, True]],
+                              ['none', 'zero', -1, 0, 1, 2, '=9', '=10', '=17', '=64'] + extra_max,
+                              [False, True]],
           _path_case)
     xlists = []
     for n in range(1, 4 + 1):
